@@ -669,7 +669,9 @@ func main() {
 		}
 		if cur, err := os.ReadFile(path); err == nil {
 			var m map[string]any
-			if json.Unmarshal(cur, &m) == nil {
+			dec := json.NewDecoder(bytes.NewReader(cur))
+			dec.UseNumber() // seeds are 64-bit: a float64 round trip would change them
+			if dec.Decode(&m) == nil {
 				m["trace"] = ro.History
 				b, _ = json.MarshalIndent(m, "", " ")
 				os.WriteFile(path, b, 0o644)
